@@ -27,6 +27,7 @@ func main() {
 	replay := flag.String("replay", "", "replay file written by a previous run")
 	dbg := flag.String("debug-invalid", "", "comma-separated function names")
 	dbgErr := flag.String("debug-errabs", "", "comma-separated function names")
+	many := flag.String("properties", "", "development aid: 'all' or a comma-separated list; the quick tier of each is run in this one process (programs loaded once) and a line 'RESULT property=<id> rc=<n>' is printed per property")
 	flag.Parse()
 	if os.Getenv("GOMAXPROCS") == "" {
 		// many OS threads make the loader spend its time in the kernel on this VM; 4 is the measured optimum
@@ -67,6 +68,9 @@ func main() {
 		}
 		rules.DebugInvalid(pr, strings.Split(*dbg, ",")...)
 		return
+	}
+	if *many != "" {
+		os.Exit(runMany(*many, *repo, *verif, seed))
 	}
 	spec := rules.Get(*prop)
 	if spec == nil {
@@ -143,4 +147,52 @@ func main() {
 		fmt.Printf("sensitivity: %d variants, %d killed, %d missed, %d skipped\n", len(res), killed, missed, skipped)
 	}
 	os.Exit(ctx.Finish(start))
+}
+
+// runMany runs the quick tier of several properties in one process; every target is loaded once and shared.
+func runMany(list, repo, verif string, seed int64) int {
+	ids := rules.IDs()
+	if list != "all" {
+		ids = strings.Split(list, ",")
+	}
+	cache := map[load.Target]*load.Program{}
+	errs := map[load.Target]error{}
+	worst := 0
+	for _, id := range ids {
+		spec := rules.Get(id)
+		if spec == nil {
+			fmt.Fprintf(os.Stderr, "unknown property %q\n", id)
+			return 2
+		}
+		start := time.Now()
+		ctx := core.NewCtx(id, "quick", seed, repo, verif, nil)
+		var ok []*load.Program
+		for _, t := range spec.Targets {
+			if _, done := cache[t]; !done && errs[t] == nil {
+				cache[t], errs[t] = load.Load(repo, t)
+			}
+			if errs[t] != nil {
+				ctx.Hard("cannot load %s: %v", t, errs[t])
+			} else {
+				ok = append(ok, cache[t])
+			}
+		}
+		ctx.Progs = ok
+		func() {
+			defer func() {
+				if r := recover(); r != nil {
+					ctx.Hard("panic in rules of %s: %v\n%s", id, r, debug.Stack())
+				}
+			}()
+			if len(ok) > 0 {
+				spec.Run(ctx)
+			}
+		}()
+		rc := ctx.Finish(start)
+		fmt.Printf("RESULT property=%s rc=%d\n", id, rc)
+		if rc > worst {
+			worst = rc
+		}
+	}
+	return worst
 }
